@@ -75,8 +75,9 @@ def bounded_part_view(ctx):
     for qn in ('utils.ReadFileChunk.__init__', '__init__.ReadFileChunk.__init__'):
         f = ctx.func(qn)
         cs = [c for c in own_calls(f.node) if (dotted(c.func) or '') == 'self._calculate_file_size']
-        ok = len(cs) == 1 and norm(kwarg(cs[0], 'requested_size')) == 'chunk_size' and norm(kwarg(cs[0], 'actual_file_size')) == 'full_file_size' \
-            and norm(kwarg(cs[0], 'start_byte')) in ('self._start_byte', 'start_byte')
+        b = q.bound(ctx, f, cs[0]) if len(cs) == 1 else {}
+        ok = len(cs) == 1 and norm(b.get('requested_size')) == 'chunk_size' and norm(b.get('actual_file_size')) == 'full_file_size' \
+            and norm(b.get('start_byte')) in ('self._start_byte', 'start_byte')
         ctx.ob(f, '_calculate_file_size(requested_size=chunk_size, start_byte=start, actual_file_size=full_file_size)', ok, 'chunk size / file size / start are crossed')
 
 
